@@ -28,6 +28,11 @@ PARTIAL = [
     "because the nested transition removed records under an outer caller). C19_evicted_record_released_except_known: when the pop IS "
     "followed by transition_after the record is removed; C19_known_evict_refuted: without it the model rejects the section at the Quiesce "
     "guard (Stuck 9), so the theorems about quiescent states do not cover executions of this class;",
+    "known finding KF-C19-4: a stream that is closed (reset by the peer / abandoned) while it is queued in pending_open, waiting for a "
+    "concurrency slot of the peer, stays stored after the last handle is gone until a slot frees (for ever under a limit of 0): the record "
+    "HAS a reason in the sense of C19_kept_has_reason (queue membership), so the theorems hold; the end-to-end claim 'nothing is retained "
+    "for a finished stream' does not (replay corpus/store/known_reset_while_pending_open_is_kept.json, oracle class: closed record at "
+    "quiescence whose only reason is is_pending_open);",
     "repaired while building this check (regression replays corpus/store/*.json re-run on every check): reset slot leak (304fa07), lost "
     "wake-up of the connection on the last handle drop (6b1d165), PUSH_PROMISE on a cancelled stream failing the connection (631577b);",
     "modelled-not-verified: the linked-list representation of store::Queue (next pointers) is abstracted to a list; the key kept in "
@@ -73,6 +78,11 @@ def corpus_regressions(rep, scs):
             _, k3 = store.snapshot_oracle(sc)
             if not k3:
                 rep.extra["KF-C19-3"] = "the replay no longer leaks the record (repaired?): turn it into a regression"
+        elif name.startswith("known_reset_while_pending_open"):
+            if last_snap and any(store.rec_closed(x) and store.rec_reasons(x) == ["is_pending_open"] for x in last_snap["streams"]):
+                rep.known(store.KF4)
+            else:
+                rep.extra["KF-C19-4"] = "the replay no longer keeps the record (repaired?): turn it into a regression"
         if bad:
             rep.violation("failing-input", {"oracle": "regression replay corpus/store/%s" % name, "violation": {"why": bad},
                                             "scenario": {"cfg": sc["cfg"], "trace": [{"op": st["op"]} for st in tr]}})
